@@ -85,6 +85,10 @@ def gen(tier, rng, harness=None):
     # constructed modules that must print the same text twice in a row (a forward blockaddress of an unnamed block with and without global variables in the
     # module; float constants of every kind, whose printing must not change the value they hold)
     lines += ["!hist.twice %s" % k for k in C.run_lines([harness, "run"], ["hist.twice.list"])[0].split(",")]
+    # NON-PRINT observers (String / Ident / Type of blocks, instructions, parameters and the function; Operands; Succs) on a never-printed function with an unnamed
+    # entry block and unnamed values, then an edit that shifts the numbering, then the print: the text is the one the edit gives unobserved
+    lines += ["!hist.qobs %s" % e for e in ("insert-front", "remove-first", "name-first", "append", "block-front", "param-front")]
+    lines += ["!md.replace %d %d" % (n, i) for n in (1, 2, 3) for i in range(n)]
     # renaming after a print / after pure queries of a constant expression (harness/ops_rename.go)
     for name in C.run_lines([harness, "run"], ["rename.list"])[0].split(","):
         for mode in "012":
